@@ -224,6 +224,7 @@ def run(tier):
             raise vlib.ToolError(f"{cfg}: {vlib.count_lines(gen)} state lines for {r.distinct} states")
         nsteps = nrej = 0
         tv = 0.0
+        v0 = len(rep.violations)
         for part in _split(gen, 4000):
             trace = part + ".trace"
             _, _, err = vlib.run_harness(PKG, ["replay", "--names", names, "--vals", vals, "--pos", pos,
@@ -248,7 +249,7 @@ def run(tier):
         os.remove(gen)
         replayed_steps += nsteps
         vlib.log(f"[p2] {cfg}: {nsteps} (state, op) steps on the real VariableSet validated against VarRef "
-                 f"in {tv:.1f}s ({nrej} rejected)")
+                 f"in {tv:.1f}s ({nrej} rejected, {len(rep.violations) - v0} not explained by a known finding)")
 
     # ---- the model of `unset` as the code is written (informational) ------
     r = vlib.tlc("VarSet", "MC_VarSet_ascoded.cfg", workers=4, timeout=600) if not DEV_CACHE else None
@@ -271,12 +272,14 @@ def run(tier):
     vlib.run_harness(PKG, ["random", "--names", "x,y,z", "--vals", rargs["vals"], "--pos", rargs["pos"],
                            "--maxdepth", rargs["maxdepth"], "--steps", steps, "--runs", runs, "--out", trace])
     rejects, info = validate(trace, "Trace_VarSet_3.cfg")
+    v0 = len(rep.violations)
     report(rep, rejects, "random history", ["x", "y", "z"],
            {"vals": rargs["vals"].split(","), "pos": rargs["pos"], "maxdepth": rargs["maxdepth"]})
     _count_ops(trace, op_counts)
     random_steps = info["steps"]
     vlib.log(f"[p3] random histories: {random_steps} steps (3 names, depth <= 6) validated against VarRef "
-             f"in {info['wall']:.1f}s ({len(rejects)} rejected)")
+             f"in {info['wall']:.1f}s ({len(rejects)} rejected, {len(rep.violations) - v0} not explained by a "
+             f"known finding)")
     rec = next(vlib.read_ndjson(trace))
     samples.append({"config": "random", "pre": rec["pre"], "step": rec["steps"][0]})
     os.remove(trace)
@@ -434,7 +437,22 @@ def lang_run_batch(rep, wd, gen, names, what, stats):
         for i, p in enumerate(vlib.read_ndjson(gen)):
             preds.append(p)
             f.write(json.dumps({"id": i, "names": names, "text": lang_render(p["script"])}) + "\n")
-    vlib.run_harness(PKG, ["lang", "--in", scripts, "--out", results])
+    vlib.build_harness(PKG)
+    parts = list(_split(scripts, max(2000, (len(preds) + 7) // 8)))
+
+    def one(part):
+        vlib.run_harness(PKG, ["lang", "--in", part, "--out", part + ".out"])
+        return part + ".out"
+
+    with ThreadPoolExecutor(max_workers=8) as ex:
+        outs = list(ex.map(one, parts))
+    with open(results, "w") as f:
+        for o in outs:
+            with open(o) as g:
+                f.write(g.read())
+            os.remove(o)
+    for part in parts:
+        os.remove(part)
     n = 0
     for obs in vlib.read_ndjson(results):
         p = preds[obs["id"]]
@@ -466,18 +484,21 @@ def lang_run(tier, rep, wd):
     stats = {"snaps": 0, "execs": 0, "dead": 0, "commands": {}, "samples": []}
     total = states = transitions = 0
     # exhaustive: every script of the bounded alphabet
-    exh = [("MC_VarLang_q.cfg", ["x"])] if tier == "quick" else [("MC_VarLang_q.cfg", ["x"]), ("MC_VarLang_t.cfg", ["x", "y"])]
+    exh = [("MC_VarLang_q.cfg", ["x"]), ("MC_VarLang_q1v.cfg", ["x"])]
+    if tier == "thorough":
+        exh += [("MC_VarLang_q3.cfg", ["x"]), ("MC_VarLang_t.cfg", ["x", "y"])]
     for cfg, names in exh:
         gen = os.path.join(wd, cfg + ".scripts.ndjson")
         r = _cached_tlc("VarLang", cfg, gen, dict(workers=8, timeout=2400))
         vlib.tlc_must_pass(r, f"script generation {cfg}")
         states += r.distinct
         transitions += r.generated
+        v0 = len(rep.violations)
         n = lang_run_batch(rep, wd, gen, names, f"script of {cfg}", stats)
         os.remove(gen)
         total += n
         vlib.log(f"[lang] {cfg}: all {n} complete scripts of the bounded alphabet run in the shell and compared "
-                 f"with the predicted snapshots ({r.wall:.1f}s TLC)")
+                 f"with the predicted snapshots ({r.wall:.1f}s TLC; {len(rep.violations) - v0} mismatches)")
     # sampled: longer scripts, two names, nested calls (TLC -simulate, seeded)
     walks = 100 if tier == "quick" else 2500
     for cfg in ("MC_VarLang_sim.cfg", "MC_VarLang_sim2.cfg"):
@@ -485,10 +506,12 @@ def lang_run(tier, rep, wd):
         r = _cached_tlc("VarLang", cfg, gen, dict(workers=4, simulate=walks, depth=60,
                                                   tool_seed=vlib.seed(), timeout=1200))
         vlib.tlc_must_pass(r, f"script sampling {cfg}")
+        v0 = len(rep.violations)
         n = lang_run_batch(rep, wd, gen, ["x", "y"], f"sampled script of {cfg}", stats)
         os.remove(gen)
         total += n
-        vlib.log(f"[lang] {cfg}: {n} sampled scripts (10 commands, 2 names, nested calls) run and compared")
+        vlib.log(f"[lang] {cfg}: {n} sampled scripts (10 commands, 2 names, nested calls) run and compared "
+                 f"({len(rep.violations) - v0} mismatches)")
     return {
         "validated": total,
         "samples": stats["samples"],
